@@ -107,11 +107,44 @@ func (r *c15Receiver) Address() string                     { return "verif://rcv
 func (r *c15Receiver) IsPermanent() bool                   { return false }
 func (r *c15Receiver) GetEndpointID() bpv7.EndpointID      { return r.eid }
 
+// ---- routing spy: every bundle the core announces to the routing algorithm ---------------------
+//
+// SendBundle and receive both call Algorithm.NotifyNewBundle. A report that is addressed to an
+// endpoint of the node itself never reaches a convergence layer (and an agent only if one is
+// registered for exactly that endpoint), but it does pass NotifyNewBundle: the spy makes every
+// report observable at its creation, whatever its destination. All other calls are delegated.
+
+type c15Spy struct {
+	Algorithm
+	mu   sync.Mutex
+	seen []bpv7.Bundle
+}
+
+func (s *c15Spy) NotifyNewBundle(bp BundleDescriptor) {
+	if b, err := (&bp).Bundle(); err == nil {
+		cp := *b
+		cp.CanonicalBlocks = append([]bpv7.CanonicalBlock(nil), b.CanonicalBlocks...)
+		s.mu.Lock()
+		s.seen = append(s.seen, cp)
+		s.mu.Unlock()
+	}
+	s.Algorithm.NotifyNewBundle(bp)
+}
+
+func (s *c15Spy) drain() []bpv7.Bundle {
+	s.mu.Lock()
+	defer s.mu.Unlock()
+	g := s.seen
+	s.seen = nil
+	return g
+}
+
 // ---- node under test ----------------------------------------------------------------------------
 
 type c15Node struct {
 	c     *Core
 	net   *verifNet
+	spy   *c15Spy
 	agent *c15Agent
 	dst1  *verifMockCLA
 	dst2  *verifMockCLA
@@ -138,6 +171,8 @@ func newC15Node(dir, nodeId string, full bool) (*c15Node, error) {
 	c.cron.Unregister("pending_bundles")
 	c.cron.Unregister("clean_store")
 	n := &c15Node{c: c, net: &verifNet{}}
+	n.spy = &c15Spy{Algorithm: c.routing}
+	c.SetRoutingAlgorithm(n.spy)
 	if full {
 		n.agent = newC15Agent(e(c15AgentDst), e(c15AgentSvc))
 		c.RegisterApplicationAgent(n.agent)
@@ -211,6 +246,7 @@ type c15Sc struct {
 	idx      int
 	entry    string // recv | submit | foreign
 	dup      bool   // hand the same bundle to receive a second time afterwards
+	retry    int    // after an all-failed forward: re-dispatch from the store (1: CLAs accept now, 2: still fail)
 	flags    uint64 // request flags, time flag, admin flag (fragment flag added from frag)
 	frag     bool
 	rto      int
@@ -321,6 +357,19 @@ func c15Scenarios(seed uint64, thorough bool) []c15Sc {
 			add(c15Sc{entry: "recv", dup: true, flags: c15FlagWord(sel), rto: rtoPeer, dispatch: d})
 		}
 	}
+	// (G) a pending bundle re-dispatched from the store, as checkPendingBundles does
+	for _, sel := range []int{0, 2, 15, 31, 34} {
+		for fr := 0; fr < 2; fr++ {
+			for _, rcv := range []int{rcvNone, rcvAlias} {
+				for retry := 1; retry <= 2; retry++ {
+					if !thorough && retry == 2 && (fr == 1 || rcv != rcvNone) {
+						continue
+					}
+					add(c15Sc{entry: "recv", flags: c15FlagWord(sel), frag: fr == 1, rto: rtoPeer, dispatch: dAllFailed, rcv: rcv, retry: retry})
+				}
+			}
+		}
+	}
 	// (F) random scenarios
 	nRand := 500
 	if thorough {
@@ -401,10 +450,11 @@ func (s c15Sc) build(base bpv7.DtnTime) c15Subject {
 	}
 	// unique creation time per scenario (sequence 0: IdKeeper rewrites it on SendBundle anyway)
 	t := base + bpv7.DtnTime(s.idx)
-	lifetime := uint64(3600000)
+	// a day of lifetime: a slow (thorough, loaded machine) run must not expire the live subjects
+	lifetime := uint64(24 * 3600000)
 	expired := s.dispatch == dExpired
 	if expired {
-		t = base - bpv7.DtnTime(2*3600000) + bpv7.DtnTime(s.idx)
+		t = base - bpv7.DtnTime(48*3600000) + bpv7.DtnTime(s.idx)
 	}
 	seq := uint64(0)
 	if s.entry == "recv" {
@@ -482,57 +532,64 @@ func c15Describe(b bpv7.Bundle, via string) (string, []byte, error) {
 		items = append(items, s)
 	}
 	p := b.PrimaryBlock
-	return fmt.Sprintf("%d,%s,%s,%s,%d,%s,%d,%s,%d:%d,%s,%s",
+	return fmt.Sprintf("%d,%s,%s,%s,%d,%s,%d,%s,%d:%d,%s,%s,%s",
 		uint64(p.BundleControlFlags), p.SourceNode, p.Destination, p.ReportTo, p.Lifetime,
 		strings.Join(items, "/"), uint64(sr.ReportReason),
 		sr.RefBundle.SourceNode, sr.RefBundle.Timestamp[0], sr.RefBundle.Timestamp[1],
-		c15Frag(sr.RefBundle.IsFragment, sr.RefBundle.FragmentOffset, sr.RefBundle.TotalDataLength), via), data, nil
+		c15Frag(sr.RefBundle.IsFragment, sr.RefBundle.FragmentOffset, sr.RefBundle.TotalDataLength), via,
+		verifHex(data)), data, nil
 }
 
 type c15Obs struct {
 	okSends, failSends int
 	delivered          int
 	reports            []c15Report
-	undecodable        int
+	undecodable        int // administrative records that cannot be described
+	stray              int // administrative records at a CLA/agent that were never announced to routing
 }
 
-// collect classifies what the mock CLAs and the agent got since the last call: copies of the
-// subject (by ID) versus administrative records (reports), the latter deduplicated by bundle ID.
+func c15PayloadOf(b bpv7.Bundle) []byte {
+	pl, err := b.PayloadBlock()
+	if err != nil {
+		return nil
+	}
+	return pl.Value.(*bpv7.PayloadBlock).Data()
+}
+
+// key identifies a report independently of its sequence number (IdKeeper rewrites it between
+// NotifyNewBundle and the convergence layers).
+func c15Key(b bpv7.Bundle) string {
+	p := b.PrimaryBlock
+	return fmt.Sprintf("%d|%s|%s|%x", uint64(p.BundleControlFlags), p.SourceNode, p.Destination, c15PayloadOf(b))
+}
+
+// collect classifies what happened since the last call. Reports = the administrative-record
+// bundles announced to the routing algorithm (creation order), other than the subject itself.
+// The mock CLAs' log and the agent's inbox give the subject's sends/deliveries and are
+// cross-checked: an administrative record seen there must be one of the announced reports.
 func (n *c15Node) collect(subject bpv7.BundleID) c15Obs {
 	n.barrier()
 	var o c15Obs
-	seen := map[string]bool{}
-	note := func(b bpv7.Bundle, via string) {
-		if b.ID() == subject {
-			return
+	known := map[string]bool{}
+	for _, b := range n.spy.drain() {
+		if b.ID() == subject || !b.IsAdministrativeRecord() {
+			continue
 		}
-		if !b.IsAdministrativeRecord() {
-			return
-		}
-		if seen[b.ID().String()] {
-			return
-		}
-		seen[b.ID().String()] = true
-		txt, payload, err := c15Describe(b, via)
+		known[c15Key(b)] = true
+		txt, payload, err := c15Describe(b, "routing")
 		if err != nil {
 			o.undecodable++
-			return
+			continue
 		}
 		o.reports = append(o.reports, c15Report{id: b.ID(), payload: payload, text: txt, bundle: b})
 	}
 	for _, s := range n.net.drain(false) {
+		// ParseBundle validates after decoding: a bundle that violates CheckValid (e.g. the
+		// administrative flag together with request flags) comes back fully populated plus an error.
+		// Such a bundle is still classified by what was decoded; only a bundle without a usable
+		// primary block counts as undecodable.
 		b, err := bpv7.ParseBundle(bytes.NewReader(s.Bytes))
-		if err != nil {
-			// an invalid subject (administrative flag plus request flags) does not parse back; take
-			// the ID from the primary block only
-			if b.ID() == subject {
-				if s.Ok {
-					o.okSends++
-				} else {
-					o.failSends++
-				}
-				continue
-			}
+		if err != nil && b.PrimaryBlock.Version == 0 {
 			o.undecodable++
 			continue
 		}
@@ -544,7 +601,9 @@ func (n *c15Node) collect(subject bpv7.BundleID) c15Obs {
 			}
 			continue
 		}
-		note(b, s.Peer)
+		if b.IsAdministrativeRecord() && !known[c15Key(b)] {
+			o.stray++
+		}
 	}
 	if n.agent != nil {
 		for _, b := range n.agent.drain() {
@@ -552,7 +611,9 @@ func (n *c15Node) collect(subject bpv7.BundleID) c15Obs {
 				o.delivered++
 				continue
 			}
-			note(b, "agent")
+			if b.IsAdministrativeRecord() && !known[c15Key(b)] {
+				o.stray++
+			}
 		}
 	}
 	return o
@@ -564,25 +625,32 @@ func (n *c15Node) stored(id bpv7.BundleID) bool {
 }
 
 // cascade feeds a report bundle back into nodes and counts the NEW administrative records that
-// appear (a forwarded copy of the report itself carries the same payload and is not counted).
+// appear at the routing spy, the CLAs or the agent (a copy of the report itself carries the same
+// payload and is not counted).
 func c15Cascade(rep c15Report, nodes []*c15Node, origin *c15Node) int {
 	count := 0
+	isNew := func(b bpv7.Bundle) bool {
+		return b.IsAdministrativeRecord() && !bytes.Equal(c15PayloadOf(b), rep.payload)
+	}
 	countNew := func(n *c15Node) {
 		n.barrier()
+		for _, b := range n.spy.drain() {
+			if isNew(b) {
+				count++
+			}
+		}
 		for _, s := range n.net.drain(false) {
 			b, err := bpv7.ParseBundle(bytes.NewReader(s.Bytes))
-			if err != nil || !b.IsAdministrativeRecord() {
+			if err != nil && b.PrimaryBlock.Version == 0 {
 				continue
 			}
-			if pl, err := b.PayloadBlock(); err == nil && bytes.Equal(pl.Value.(*bpv7.PayloadBlock).Data(), rep.payload) {
-				continue
+			if isNew(b) {
+				count++
 			}
-			count++
 		}
 		if n.agent != nil {
 			for _, b := range n.agent.drain() {
-				if pl, err := b.PayloadBlock(); err == nil && b.IsAdministrativeRecord() &&
-					!bytes.Equal(pl.Value.(*bpv7.PayloadBlock).Data(), rep.payload) {
+				if isNew(b) {
 					count++
 				}
 			}
@@ -795,10 +863,12 @@ func c15Run(node *c15Node, feedback []*c15Node, sc c15Sc, base bpv7.DtnTime, doC
 	p := sub.b.PrimaryBlock
 	destLocal := sc.dispatch == dDelivered || sc.dispatch == dNoAgent
 
+	want := c15DispatchNames[sc.dispatch]
 	one := func(entry string) string {
 		// leftovers of an earlier scenario must not be attributed to this one
 		node.net.drain(false)
 		node.agent.drain()
+		node.spy.drain()
 		panicked := ""
 		t0 := bpv7.DtnTimeNow()
 		func() {
@@ -812,6 +882,9 @@ func c15Run(node *c15Node, feedback []*c15Node, sc c15Sc, base bpv7.DtnTime, doC
 			switch entry {
 			case "recv", "dup":
 				verifReceive(node.c, cp, e(c15Rcv[sc.rcv]))
+			case "retry":
+				// the body of checkPendingBundles' loop for this one bundle
+				node.c.dispatching(NewBundleDescriptor(id, node.c.store))
 			default:
 				node.c.SendBundle(&cp)
 			}
@@ -842,14 +915,14 @@ func c15Run(node *c15Node, feedback []*c15Node, sc c15Sc, base bpv7.DtnTime, doC
 			return 0
 		}
 		rcv := c15Rcv[sc.rcv]
-		if entry != "recv" && entry != "dup" {
+		if entry != "recv" && entry != "dup" && entry != "retry" {
 			rcv = "dtn:none"
 		}
-		line := fmt.Sprintf("sc n=%d entry=%s want=%s flags=%d frag=%s src=%s ts=%d:%d dst=%s rto=%s rcv=%s blocks=%s self=%d destlocal=%d hop=%d expired=%d sends=%d:%d dlv=%d stored=%d t0=%d t1=%d undec=%d reports=%s cascade=%s",
-			sc.idx, entry, c15DispatchNames[sc.dispatch], uint64(p.BundleControlFlags), c15Frag(p.BundleControlFlags.Has(bpv7.IsFragment), p.FragmentOffset, p.TotalDataLength),
+		line := fmt.Sprintf("sc n=%d entry=%s want=%s flags=%d frag=%s src=%s ts=%d:%d dst=%s rto=%s rcv=%s blocks=%s self=%d destlocal=%d hop=%d expired=%d sends=%d:%d dlv=%d stored=%d t0=%d t1=%d undec=%d stray=%d reports=%s cascade=%s",
+			sc.idx, entry, want, uint64(p.BundleControlFlags), c15Frag(p.BundleControlFlags.Has(bpv7.IsFragment), p.FragmentOffset, p.TotalDataLength),
 			p.SourceNode, p.CreationTimestamp[0], p.CreationTimestamp[1], p.Destination, p.ReportTo, rcv, blk,
 			b2i(c15Rto[sc.rto].self), b2i(destLocal), b2i(sub.hop), b2i(sub.expired),
-			obs.okSends, obs.failSends, obs.delivered, b2i(stored), uint64(t0), uint64(t1), obs.undecodable, rs, casc)
+			obs.okSends, obs.failSends, obs.delivered, b2i(stored), uint64(t0), uint64(t1), obs.undecodable, obs.stray, rs, casc)
 		if panicked != "" {
 			line += " panic=" + panicked
 		}
@@ -868,6 +941,19 @@ func c15Run(node *c15Node, feedback []*c15Node, sc c15Sc, base bpv7.DtnTime, doC
 			second = "dup"
 		}
 		lines = append(lines, one(second))
+	}
+	if sc.retry != 0 && node.stored(id) {
+		if sc.retry == 1 {
+			node.dst1.setDefault(true)
+			node.dst2.setDefault(true)
+			want = "fwdboth"
+		}
+		if sub.b.CheckValid() != nil {
+			// administrative flag plus request flags: the stored copy does not load again
+			// (UnmarshalCbor validates), dispatching gives up before anything can be reported
+			want = "any"
+		}
+		lines = append(lines, one("retry"))
 	}
 	return lines
 }
